@@ -176,13 +176,15 @@ def rule_r2(ctx, rep):
             rep.add("R2", fi.qname, p.append_call, f"the {code} report is not inside a loop over the attributes", fi.loc(p.if_node))
             continue
         it = norm(loop.iter)
-        it_ok = (coll == "rule" and it in (f"{s}._attributes", f"{s}.attributes", f"{s}._attributes.keys()", f"{s}._attributes.items()", f"{s}.attributes.items()")) or \
-                (coll == "node" and it in (f"{nodep}.attributes", f"{nodep}._attributes", f"{nodep}.attributes.keys()", f"{nodep}.attributes.items()",
-                                           f"list({nodep}.attributes)", f"{nodep}.list_attributes()"))
-        rep.oblige(("R2", code, "collection"), it_ok)
-        if not it_ok:
-            rep.add("R2", fi.qname, loop.iter, f"the {code} report ranges over `{it}`, not over every "
-                    f"{'attribute the rule declares' if coll == 'rule' else 'attribute the node carries'}", fi.loc(loop))
+        # which collection the loop actually ranges over; whether that is enough is decided by the verdicts below
+        names_it = {x.id for x in ast.walk(loop.iter) if isinstance(x, ast.Name)}
+        actual = "rule" if s in names_it and nodep not in names_it else "node" if nodep in names_it and s not in names_it else None
+        rep.oblige(("R2", code, "collection"), actual is not None)
+        if actual is None:
+            rep.add("R2", fi.qname, loop.iter, f"the {code} report ranges over `{it}`, which is neither the rule's attribute table nor the node's attributes",
+                    fi.loc(loop))
+            continue
+        coll = actual
         early = [x for x in ast.walk(loop) if isinstance(x, (ast.Break, ast.Continue, ast.Return))]
         # a `continue` that only skips the remainder for a different attribute is fine when the report precedes it; keep it simple:
         bad = [x for x in early if isinstance(x, (ast.Break, ast.Return))]
@@ -199,25 +201,34 @@ def rule_r2(ctx, rep):
             selfobj = {"__obj__": True, "_attributes": rule_attrs, "attributes": rule_attrs}
             nodeobj = {"__obj__": True, "attributes": na, "_attributes": na, "name": "n", "_name": "n"}
             coll_d = rule_attrs if coll == "rule" else na
+            reported = set()
+            universe = list(dict.fromkeys(list(rule_attrs) + list(na)))
+
+            def wanted(a):
+                if code == "ATTRIBUTE_REQUIRED":
+                    return a in rule_attrs and rule_attrs[a][0] is True and a not in na
+                if code == "ATTRIBUTE_UNRECOGNIZED":
+                    return a in na and a not in rule_attrs
+                return a in na and a in rule_attrs and len(rule_attrs[a]) > 1 and na[a] not in rule_attrs[a][1:]
             for a in list(coll_d):
                 env = {s: selfobj, nodep: nodeobj, mp: None}
                 if isinstance(tgt, ast.Name):
                     env[tgt.id] = a
-                elif isinstance(tgt, ast.Tuple) and len(tgt.elts) == 2 and all(isinstance(x, ast.Name) for x in tgt.elts):
-                    env[tgt.elts[0].id] = a
-                    env[tgt.elts[1].id] = coll_d[a]
+                elif isinstance(tgt, ast.Tuple) and len(tgt.elts) == 2:
+                    # `for name, spec in X.items()` -- spec possibly destructured further (required, *values)
+                    try:
+                        pe.assign(tgt, (a, coll_d[a]), env, fi, 0)
+                    except PEvalUnsupported as ex:
+                        raise AnalysisError(f"{fi.loc(loop)}: cannot bind the loop target `{norm(tgt)}`: {ex}")
                 try:
                     verdict = guard_verdict(ctx, fi, p.if_node, env, pe)
                     if isinstance(verdict, tuple):
                         verdict = f"raises {verdict[1]}"
                 except PEvalUnsupported as ex:
                     raise AnalysisError(f"{fi.loc(p.if_node)}: cannot evaluate the guard of the {code} report: {ex}")
-                if code == "ATTRIBUTE_REQUIRED":
-                    want = rule_attrs[a][0] is True and a not in na
-                elif code == "ATTRIBUTE_UNRECOGNIZED":
-                    want = a not in rule_attrs
-                else:
-                    want = a in rule_attrs and len(rule_attrs[a]) > 1 and na[a] not in rule_attrs[a][1:]
+                want = wanted(a)
+                if verdict is True:
+                    reported.add(a)
                 rep.count("attribute guard verdicts")
                 ok = verdict == want
                 rep.oblige(("R2e", code, a, tuple(sorted(na.items()))), ok)
@@ -227,6 +238,14 @@ def rule_r2(ctx, rep):
                             f"{code}: with rule attributes {rule_attrs} and node attributes {na}, attribute '{a}' is "
                             f"{'reported' if verdict is True else 'not reported' if verdict is False else verdict}; the constraint requires "
                             f"{'a report' if want else 'no report'}", fi.loc(p.if_node))
+            if not failed:
+                missing = [a for a in universe if wanted(a) and a not in reported]
+                rep.oblige(("R2c", code, tuple(sorted(na.items()))), not missing)
+                if missing:
+                    failed = True
+                    rep.add("R2", fi.qname, loop.iter,
+                            f"{code}: with rule attributes {rule_attrs} and node attributes {na}, attribute '{missing[0]}' violates the constraint but "
+                            f"the loop over `{it}` never looks at it", fi.loc(loop))
             if failed:
                 break
     extra = set(by_code) - set(want_codes)
